@@ -201,7 +201,8 @@ func (_this *cteListener) ExitValueInt(ctx *parser.ValueIntContext) {
 		isNegative = true
 	}
 
-	if v, err := strconv.ParseInt(str, 0, 64); err == nil {
+	base := integerLiteralBase(str)
+	if v, err := strconv.ParseInt(str, base, 64); err == nil {
 		if v == 0 && isNegative {
 			_this.eventReceiver.OnNegativeInt(0)
 		} else {
@@ -211,7 +212,7 @@ func (_this *cteListener) ExitValueInt(ctx *parser.ValueIntContext) {
 	}
 
 	bigInt := &big.Int{}
-	if _, success := bigInt.SetString(str, 0); success {
+	if _, success := bigInt.SetString(str, base); success {
 		_this.eventReceiver.OnBigInt(bigInt)
 		return
 	}
@@ -1125,7 +1126,35 @@ func appendUID(str string, dst []byte) []byte {
 	return dst
 }
 
+// integerLiteralBase returns the base to parse an integer literal with: 0 (let
+// the 0b/0o/0x prefix decide) if it has a base prefix, otherwise 10. A decimal
+// literal may have leading zeros, which base 0 would read as octal.
+func integerLiteralBase(str string) int {
+	if len(str) > 0 && (str[0] == '-' || str[0] == '+') {
+		str = str[1:]
+	}
+	if len(str) > 1 && str[0] == '0' {
+		switch str[1] {
+		case 'b', 'B', 'o', 'O', 'x', 'X':
+			return 0
+		}
+	}
+	return 10
+}
+
+// integerElement prepares the text of an integer array element for strconv:
+// digit separators are removed, and an element without an explicit base (base
+// 0) is decimal unless it carries a base prefix.
+func integerElement(str string, base int) (string, int) {
+	str = strings.ReplaceAll(str, "_", "")
+	if base == 0 {
+		base = integerLiteralBase(str)
+	}
+	return str, base
+}
+
 func parseUintElement(str string, base int, bitSize int, result []byte) []byte {
+	str, base = integerElement(str, base)
 	element, err := strconv.ParseUint(str, base, bitSize)
 	if err != nil {
 		panic(fmt.Errorf("error parsing uint element: %v", err))
@@ -1145,6 +1174,7 @@ func parseUintElement(str string, base int, bitSize int, result []byte) []byte {
 }
 
 func parseIntElement(str string, base int, bitSize int, result []byte) []byte {
+	str, base = integerElement(str, base)
 	element, err := strconv.ParseInt(str, base, bitSize)
 	if err != nil {
 		panic(fmt.Errorf("error parsing int element: %v", err))
